@@ -9,7 +9,9 @@ import RTV.Model.UnitExtract
         -> `<results start:len:rel|n:text;..>#<unit_is_prefix flags>#<source after the comma rewrite>`  or err:IndexError
   ux.select <srcLen> <ers start:len:rel|n:text;..> <flags>      -> results or err:IndexError
   ux.maxsuffix <src> <connector> <firstIndex> <sm>              -> max_len
-  ux.bestprefix <src> <start> <pm>                              -> start:len or none -/
+  ux.bestprefix <src> <start> <pm>                              -> start:len or none
+  ux.merge <src> <ers start:len:isNum:typ:nonInt:text;..> <nums ..> <gaps b:e;.. (pairs with gapOK)>
+        -> `start:len:members:text;..` or err:IndexError      (BaseMergedUnitExtractor.__merged_compound_units) -/
 namespace RTV.Drv
 open RTV.UnitExtract
 namespace UX
@@ -92,6 +94,23 @@ def hUxBestPrefix : Handler
     | some m => s!"{m.start}:{m.len}"
   | _ => "bad-op"
 
+def parseItems (f : String) : List Item :=
+  (splitList f).filterMap fun it =>
+    match it.splitOn ":" with
+    | [s, l, n, ty, ni, t] => some ⟨parseNat s, parseNat l, parseCps t, parseBool n, parseNat ty, parseBool ni⟩
+    | _ => none
+
+def hUxMerge : Handler
+  | [src, ers, nums, gaps] =>
+    let gs := parsePairs gaps
+    let gapOK := fun b e => gs.any fun p => p.1 == b && p.2 == e
+    match mergedCompoundUnits pySpace (parseCps src) gapOK (parseItems ers) (parseItems nums) with
+    | none => "err:IndexError"
+    | some rs =>
+      if rs.isEmpty then "_" else
+      ";".intercalate (rs.map fun g => s!"{g.start}:{g.len}:{g.members}:" ++ showCps g.text)
+  | _ => "bad-op"
+
 end UX
 open UX in
 def dispatchUnitExtract (op : String) (args : List String) : Option String :=
@@ -100,6 +119,7 @@ def dispatchUnitExtract (op : String) (args : List String) : Option String :=
   | "ux.select" => some (hUxSelect args)
   | "ux.maxsuffix" => some (hUxMaxSuffix args)
   | "ux.bestprefix" => some (hUxBestPrefix args)
+  | "ux.merge" => some (hUxMerge args)
   | _ => none
 
 end RTV.Drv
